@@ -662,6 +662,63 @@ impl TabletsInfo {
     }
 }
 
+/// Verification hooks: thin pass-throughs to private items, no logic.
+/// A tablet built here has empty replica lists and carries a `tag` (in the
+/// otherwise unused raw-replica list) so that a harness can tell tablets apart.
+#[cfg(feature = "scylla-verif")]
+pub(crate) mod verif_hooks {
+    use super::{RawTabletReplicas, TableTablets, Tablet, TabletReplicas};
+    use crate::routing::Token;
+    use scylla_cql::frame::response::result::TableSpec;
+    use uuid::Uuid;
+
+    pub(crate) fn make_tablet(first: i64, last: i64, tag: u32) -> Tablet {
+        Tablet {
+            first_token: Token::new(first),
+            last_token: Token::new(last),
+            replicas: TabletReplicas::default(),
+            failed: Some(RawTabletReplicas {
+                replicas: vec![(Uuid::nil(), tag)],
+            }),
+        }
+    }
+
+    pub(crate) fn tablet_view(t: &Tablet) -> (i64, i64, u32) {
+        let tag = t
+            .failed
+            .as_ref()
+            .and_then(|f| f.replicas.first())
+            .map(|r| r.1)
+            .unwrap_or(u32::MAX);
+        (t.first_token.value(), t.last_token.value(), tag)
+    }
+
+    pub(crate) fn table_new() -> TableTablets {
+        TableTablets::new(TableSpec::borrowed("k", "t"))
+    }
+
+    /// Installs a pre-state directly (appends without any overlap handling).
+    pub(crate) fn table_push_raw(t: &mut TableTablets, tablet: Tablet) {
+        t.tablet_list.push(tablet);
+    }
+
+    pub(crate) fn table_add(t: &mut TableTablets, tablet: Tablet) {
+        t.add_tablet(tablet)
+    }
+
+    pub(crate) fn table_lookup(t: &TableTablets, token: i64) -> Option<(i64, i64, u32)> {
+        t.tablet_for_token(Token::new(token)).map(tablet_view)
+    }
+
+    pub(crate) fn table_len(t: &TableTablets) -> usize {
+        t.tablet_list.len()
+    }
+
+    pub(crate) fn table_get(t: &TableTablets, i: usize) -> (i64, i64, u32) {
+        tablet_view(&t.tablet_list[i])
+    }
+}
+
 #[cfg(test)]
 mod tests {
     use std::collections::{HashMap, HashSet};
